@@ -133,7 +133,7 @@ extern const scpi_choice_def_t vh_choices[];
 
 /* feed helpers */
 scpi_bool_t vh_input(vh_ctx_t * v, const void * data, size_t len);
-scpi_bool_t vh_deliver(vh_ctx_t * v, const void * data, size_t len, int how); /* how: 0 as is, 1 terminator replaced by a flush call, 2 behind an empty line in one call, then flush */
+scpi_bool_t vh_deliver(vh_ctx_t * v, const void * data, size_t len, size_t termlen, int how); /* how: 0 as is, 1 terminator replaced by a flush call, 2 behind an empty line in one call, then flush */
 void vh_unpoison_input(vh_ctx_t * v);
 extern int vh_poison_enabled;
 
